@@ -94,11 +94,14 @@ pub fn cmd_reader() {
     let stdin = std::io::stdin();
     let stdout = std::io::stdout();
     let mut out = BufWriter::new(stdout.lock());
-    for line in stdin.lock().lines() {
+    let skip = crate::skip_arg();
+    let t0 = crate::wd_start(3000);
+    for (i, line) in stdin.lock().lines().enumerate() {
         let line = line.unwrap();
-        if line.trim().is_empty() {
+        if (i as u64) < skip || line.trim().is_empty() {
             continue;
         }
+        crate::wd_begin(t0, i as u64);
         let v: Value = serde_json::from_str(&line).expect("input json");
         let bytes: Vec<u8> = v["bytes"].as_array().unwrap().iter().map(|x| x.as_u64().unwrap() as u8).collect();
         let script: Vec<i64> = v["script"].as_array().map(|a| a.iter().map(|x| x.as_i64().unwrap()).collect()).unwrap_or_default();
@@ -149,8 +152,10 @@ pub fn cmd_reader() {
         let plain1 = proj(catch_unwind(AssertUnwindSafe(|| Frame::from_bytes(&bytes))));
         let ev = json!({"ev": "rdecode", "bytes": bytes, "script": script, "calls": rd.calls, "consumed": rd.next,
                         "out": o, "outcome": outcome, "hard": rd.hard, "plain": plain0.0, "again": plain1.0, "tag": v["tag"].as_str().unwrap_or("")});
+        crate::wd_end();
         serde_json::to_writer(&mut out, &ev).unwrap();
         out.write_all(b"\n").unwrap();
+        out.flush().unwrap();
     }
     out.flush().unwrap();
 }
